@@ -199,8 +199,14 @@ def observe(pid, allc):
     return recs
 
 
+# the judge JVMs are single-worker and live 5-10 s: two JIT / GC threads each instead of one per core (measured on
+# 3 283 records: 9.3 -> 6.3 CPU-s per JVM, same verdicts).  harness.tlc drops an inherited JAVA_TOOL_OPTIONS and then
+# applies env=, so this reaches only these runs.
+JUDGE_ENV = {"JAVA_TOOL_OPTIONS": "-XX:CICompilerCount=2 -XX:ParallelGCThreads=2"}
+
+
 def judge(pid, recs):
-    verdicts, st, tr, wall = tlc.judge(pid, "C19", recs, JUDGE_CFG, timeout=3000)
+    verdicts, st, tr, wall = tlc.judge(pid, "C19", recs, JUDGE_CFG, timeout=3000, env=JUDGE_ENV)
     got = {v["id"]: v for v in verdicts}
     if len(got) != len(recs):
         raise Machinery("judge returned %d verdicts for %d records" % (len(got), len(recs)))
@@ -219,12 +225,14 @@ def run(rep):
     res = tlc.run(rep.pid, "C19", ENUM_CFG, env={"TIER": rep.tier}, timeout=3000, tag="enum", heap="6g")
     rep.add_tlc("C19.Enum+Laws", res)
     allc, fam, nextra, nrand = prepare(res.records, rep.tier, rep.seed)
-    for need, least in (("tokc", 1000), ("tokf", 400), ("mut", 3000), ("val", 3000)):
+    for need, least in (("tokc", 1000), ("tokf", 400), ("mut", 3000), ("val", 3000), ("sv", 800), ("st", 1000)):
         if fam.get(need, 0) < least:
             raise Machinery("enumeration produced only %d cases of family %s" % (fam.get(need, 0), need))
     names = {"tokc": "token-class sequences (all short ones, then every one-token extension of a viable prefix)",
              "tokf": "full-vocabulary token sequences (same scheme)", "mut": "single-token mutations of valid texts (incl. nesting 30)",
-             "val": "value structures depth<=3 width<=2, key strings, cycles 1-3, shared nodes"}
+             "val": "value structures depth<=3 width<=2, key strings, cycles 1-3, shared nodes",
+             "sv": "strings by shape as stringify operands (every sequence of 7 code-unit classes up to a length; root, key and value)",
+             "st": "strings by shape as string tokens (unit-class sequences x raw / \\u / \\U / short-escape spellings; root, key and value)"}
     for f, n in sorted(fam.items()):
         rep.spaces.append({"space": names.get(f, f) + " (TLC-enumerated)", "cases": n, "complete": True})
     if nrand:
